@@ -18,7 +18,30 @@ pub const MESSAGES: &[&str] = &[
     "with  two  spaces",
     "(",
     "...",
+    "expected one of:",
+    "a: b:",
+    ":",
+    "x::",
+    ": leading",
 ];
+
+/// Message tokens: the parser's own delimiters in every position (incl. trailing ':' and ')').
+pub const MSG_TOKENS: &[&str] = &["x", "é", "Crash", ": ", ":", " ", "at ", "(", ")", "Caused by: ", ".", "...", "a.b(c:1)", "::", "\t", "-", "1"];
+
+/// Generated message: non-empty, no surrounding whitespace, single line (the C17 domain), built from delimiter tokens.
+pub fn message() -> BoxedStrategy<String> {
+    vec(select(MSG_TOKENS), 1..6)
+        .prop_map(|v| {
+            let s: String = v.concat();
+            let t = s.trim();
+            if t.is_empty() {
+                "m".to_string()
+            } else {
+                t.to_string()
+            }
+        })
+        .boxed()
+}
 
 pub const FILES: &[&str] = &["SourceFile", "Foo.java", "a(b)", "<unknown>", "", "Native Method", "ü.kt", "R8$$SyntheticClass"];
 
@@ -71,7 +94,8 @@ pub fn throwable(pool: &NamePool) -> BoxedStrategy<ThrowableAst> {
         prop_oneof![8 => select(classes), 1 => ident()],
         prop_oneof![
             3 => Just(None),
-            5 => select(MESSAGES).prop_map(|m| Some(m.to_string())),
+            4 => select(MESSAGES).prop_map(|m| Some(m.to_string())),
+            3 => message().prop_map(Some),
             1 => ident().prop_map(Some),
         ],
     )
